@@ -1,6 +1,7 @@
 """C10 - all rendering entry points produce the same text.
 
-Case: {"templates": {name: source}, "main": name, "data": {...}, "encodings": [[codec, errors], ...]}
+Case: {"templates": {name: source}, "main": name, "data": {...}, "encodings": [[codec, errors], ...],
+       "rounds": [environment globals dict, ...] (optional)}
 
 For the main template of a DictLoader set (a G-stmt program, or a small include/import or extends set built
 around G-stmt programs) and one data dict, in a sync and in an async environment:
@@ -10,6 +11,9 @@ around G-stmt programs) and one data dict, in a sync and in an async environment
 Chunk rule: walking generate()'s pieces, every buffered chunk except the last is the concatenation of consecutive
 pieces holding exactly ``size`` non-empty ones; the last holds at most ``size``.
 When render raises, every other entry point must raise the same exception type.
+Rounds: afterwards the same Template objects are rendered again with empty data once per "round", each round after
+replacing the round's names in environment.globals; all entry points of a round (incl. make_module() / make_module({}))
+must agree with that round's render -- only template.module is documented as cached.
 """
 import asyncio
 import io
@@ -30,7 +34,9 @@ RULE = (
     "of a macro library, or as block bodies of a 2-3 level extends chain with super()/self.block() calls; data makes some "
     "pieces empty and some non-ASCII. Every entry point (render, generate, stream unbuffered and buffered with every size "
     "2..8, dump to path / BytesIO / StringIO with 2 codecs drawn from 11 codec/error-handler pairs incl. BOM codecs, make_module, template.module; the async "
-    "counterparts in an async environment) is compared with render, and the buffered chunks with the chunk rule. "
+    "counterparts in an async environment) is compared with render, and the buffered chunks with the chunk rule; then two "
+    "rounds with empty data and changed environment globals on the same Template objects (every entry point incl. "
+    "make_module() / make_module({}) must follow the change). "
     "Non-trivial = the piece list of generate() has at least 3 non-empty pieces and at least one empty piece (so that for "
     "size 2 a non-final chunk exists and empty pieces matter); distinct = distinct case."
 )
@@ -277,6 +283,77 @@ def check_case(case):
         asame("generate_async", g_async)
     asame("str(make_module_async(data))", m_async)
 
+    # ---------------- rounds: the SAME Template objects again, with empty data, after the values the templates see
+    # through the environment globals changed; every entry point of a round must agree with that round's render
+    # (template.module is documented as cached and is not part of a round)
+    prev_keys = []
+    round_texts = []
+    for rno, gl in enumerate(case.get("rounds") or []):
+        for env_ in (senv, aenv):
+            for k in prev_keys:
+                env_.globals.pop(k, None)
+            env_.globals.update(gl)
+        prev_keys = list(gl)
+        rref = _outcome(lambda: t.render())
+        round_texts.append(rref)
+
+        def rsame(name, got, want=rref, rno=rno, gl=gl):
+            if got != want:
+                raise core.Violation(
+                    "round %d (same Template object, empty data, environment globals now %r): %s gives %r, render gives %r\n"
+                    " template %r: %s\n all templates: %r" % (rno, gl, name, got, want, main, src, templates), entry="round " + name)
+
+        rsame("''.join(generate())", _outcome(lambda: joined(t.generate())))
+        rsame("''.join(stream())", _outcome(lambda: joined(t.stream({}))))
+        for size in (SIZES[(len(src) + rno) % len(SIZES)], 2):
+            def rbuf(size=size):
+                s = t.stream()
+                s.enable_buffering(size)
+                return joined(s)
+
+            rsame("stream buffered %d" % size, _outcome(rbuf))
+
+        def r_stringio():
+            fp = io.StringIO()
+            t.stream().dump(fp)
+            return fp.getvalue()
+
+        def r_bytesio():
+            fp = io.BytesIO()
+            t.stream({}).dump(fp, encoding="utf-8")
+            return fp.getvalue().decode("utf-8")
+
+        rsame("dump(StringIO)", _outcome(r_stringio))
+        rsame("dump(BytesIO, utf-8)", _outcome(r_bytesio))
+        rsame("str(make_module())", _outcome(lambda: str(t.make_module())))
+        rsame("str(make_module({}))", _outcome(lambda: str(t.make_module({}))))
+        rsame("str(make_module(None, False, None))", _outcome(lambda: str(t.make_module(None, False, None))))
+        rsame("str(make_module().__html__())", _outcome(lambda: str(t.make_module().__html__())))
+        # async environment, same Template object as above
+        raref = _outcome(lambda: ta.render())
+
+        async def rnative():
+            async def module():
+                return str(await ta.make_module_async())
+
+            async def wrap(coro):
+                try:
+                    return ("ok", await coro)
+                except Exception as e:  # noqa: BLE001 - type compared below
+                    return ("raise", type(e).__name__)
+
+            return [await wrap(ta.render_async()), await wrap(module())]
+
+        ra, rm = asyncio.run(rnative())
+        rsame("async render_async()", ra, raref)
+        rsame("async str(make_module_async())", rm, raref)
+        rsame("async ''.join(generate())", _outcome(lambda: joined(ta.generate())), raref)
+    if case.get("rounds"):
+        labels.add("rounds")
+        oks = [x[1] for x in round_texts if x[0] == "ok"]
+        if len(set(oks)) > 1 or (oks and nodata[0] == "ok" and any(x != nodata[1] for x in oks)):
+            labels.add("rounds_differ")
+
     nontrivial = False
     if pieces is not None:
         ne = sum(1 for p in pieces if p)
@@ -385,7 +462,16 @@ def _strategies():
                 parts.insert(draw(st.integers(1, len(parts))), G.print_program(prog[:2]))
                 templates[name] = "".join(parts)
                 parent = name
-        return {"shape": shape, "templates": templates, "main": "main", "data": d, "encodings": [list(e) for e in encs]}
+        # two rounds of environment globals over the same names the programs read (render data is empty in a round)
+        rounds = []
+        for _ in range(2):
+            g = draw(data())
+            for k, v in d.items():
+                if k.startswith("layout") or k == "inc_name":
+                    g[k] = v
+            rounds.append(g)
+        return {"shape": shape, "templates": templates, "main": "main", "data": d, "encodings": [list(e) for e in encs],
+                "rounds": rounds}
 
     return tsets
 
@@ -415,7 +501,7 @@ def floors(total, tier):
     n = max(1, total.evaluations)
     msgs = []
     for name, lo in (("nontrivial", 0.3), ("has_empty_piece", 0.3), ("non_ascii", 0.1), ("shape_modules", 0.15), ("shape_inherit", 0.15),
-                     ("render_ok", 0.6)):
+                     ("render_ok", 0.6), ("rounds_differ", 0.3)):
         if lab.get(name, 0) < lo * n:
             msgs.append("%s %d/%d < %d%%" % (name, lab.get(name, 0), n, lo * 100))
     return "; ".join(msgs) or None
